@@ -31,6 +31,22 @@ theorem parse_squote (args : List (List Char)) (h : ∀ x ∈ args, '\'' ∉ x) 
     simp
     exact List.dropLast_concat_getLast (by simp)
 
+/-- **Round trip, unquoted form**: words that need no quoting — non-empty, free of white space and quote characters,
+    whatever else they contain (backslashes, `$`, any non-ASCII text) — joined by single blanks are split back into
+    exactly the original list. -/
+theorem parse_plain (args : List (List Char)) (h : ∀ x ∈ args, x ≠ [] ∧ ∀ c ∈ x, plainChar c = true) :
+    parse (pjoin args) = .ok args := by
+  cases args with
+  | nil => simp [parse, pjoin, run_nil]
+  | cons a as =>
+    unfold parse
+    rw [show ({} : St) = { args := [], cur := [], inQ := false, q := ' ', has := false } from rfl,
+        run_pjoin as a [] h]
+    simp
+    exact List.dropLast_concat_getLast (by simp)
+
+example : ∀ x ∈ ["echo".toList, "Voilà".toList, "/home/你好/fw.bin".toList, "a\\b$c".toList], x ≠ [] ∧ ∀ c ∈ x, plainChar c = true := by decide
+
 /-- **Malformed input is reported**: a double-quoted argument whose closing quote is missing is an error,
     whatever precedes it. -/
 theorem parse_unterminated (a : List Char) : parse ('"' :: esc a) = .error () := by
